@@ -3,6 +3,7 @@ import SteelVerif.C01.Props
 import SteelVerif.C04.Props
 import SteelVerif.C05.Props
 import SteelVerif.C06.Props
+import SteelVerif.C06.Rollback
 import SteelVerif.C09.Props
 import SteelVerif.C10.Props
 import SteelVerif.C11.Props
